@@ -141,8 +141,147 @@ func orderedLE(b *ssa.BasicBlock, lo, hi ssa.Value) bool {
 		if bin.X == lo && nonNegative(bin.Y) || bin.Y == lo && nonNegative(bin.X) {
 			return true
 		}
+		sa := &signAn{busy: map[ssa.Value]bool{}}
+		if bin.X == lo && sa.sign(bin.Y, b, nil, 0).nonNeg || bin.Y == lo && sa.sign(bin.X, b, nil, 0).nonNeg {
+			return true
+		}
 	}
 	return false
+}
+
+// signAn: a small sign analysis (is an integer known to be >= 0, <= 0) over dominating facts, arithmetic, merges and
+// the results of the repository's helpers.
+type signAn struct {
+	busy map[ssa.Value]bool
+}
+
+type sgn struct{ nonNeg, nonPos bool }
+
+func (a *signAn) sign(v ssa.Value, b *ssa.BasicBlock, extra []condFact, depth int) sgn {
+	out := sgn{}
+	if depth > 8 || a.busy[v] {
+		return sgn{true, true} // optimistic on cycles (a counter that only grows from a non-negative start)
+	}
+	a.busy[v] = true
+	defer delete(a.busy, v)
+	facts := append(blockFacts(b), extra...)
+	for _, f := range facts {
+		op, x, y, ok := f.rel()
+		if !ok {
+			continue
+		}
+		if y == v {
+			x, y = y, x
+			op = flipOp(op)
+		}
+		if x != v {
+			continue
+		}
+		c, ok := y.(*ssa.Const)
+		if !ok || c.Value == nil || c.Value.Kind() != constant.Int {
+			continue
+		}
+		k := constant.Sign(c.Value)
+		switch op {
+		case token.GTR:
+			if k >= 0 {
+				out.nonNeg = true
+			}
+		case token.GEQ:
+			if k >= 0 {
+				out.nonNeg = true
+			}
+		case token.LSS:
+			if k <= 0 {
+				out.nonPos = true
+			}
+		case token.LEQ:
+			if k <= 0 {
+				out.nonPos = true
+			}
+		case token.EQL:
+			out.nonNeg = out.nonNeg || k >= 0
+			out.nonPos = out.nonPos || k <= 0
+		}
+	}
+	join := func(s sgn) { out.nonNeg, out.nonPos = out.nonNeg || s.nonNeg, out.nonPos || s.nonPos }
+	switch x := v.(type) {
+	case *ssa.Const:
+		if x.Value != nil && x.Value.Kind() == constant.Int {
+			join(sgn{constant.Sign(x.Value) >= 0, constant.Sign(x.Value) <= 0})
+		}
+	case *ssa.Call:
+		if n := builtinName(&x.Call); n == "len" || n == "cap" {
+			join(sgn{true, false})
+		} else if strings.HasPrefix(calleeFullName(&x.Call), "unicode/utf8.RuneCount") {
+			join(sgn{true, false})
+		} else if _, isTuple := x.Type().(*types.Tuple); !isTuple {
+			join(a.calleeSign(x, 0, depth))
+		}
+	case *ssa.Extract:
+		if c, ok := x.Tuple.(*ssa.Call); ok {
+			join(a.calleeSign(c, x.Index, depth))
+		}
+	case *ssa.Convert:
+		join(a.sign(x.X, b, nil, depth+1))
+	case *ssa.UnOp:
+		if x.Op == token.SUB {
+			s := a.sign(x.X, b, nil, depth+1)
+			join(sgn{s.nonPos, s.nonNeg})
+		}
+	case *ssa.BinOp:
+		l, r := a.sign(x.X, b, nil, depth+1), a.sign(x.Y, b, nil, depth+1)
+		switch x.Op {
+		case token.ADD:
+			join(sgn{l.nonNeg && r.nonNeg, l.nonPos && r.nonPos})
+		case token.SUB:
+			join(sgn{l.nonNeg && r.nonPos, l.nonPos && r.nonNeg})
+		case token.MUL, token.QUO:
+			join(sgn{l.nonNeg && r.nonNeg || l.nonPos && r.nonPos, l.nonNeg && r.nonPos || l.nonPos && r.nonNeg})
+		case token.REM:
+			join(sgn{l.nonNeg, l.nonPos}) // the sign of the dividend
+		}
+	case *ssa.Phi:
+		all := sgn{true, true}
+		for i, e := range x.Edges {
+			p := x.Block().Preds[i]
+			var ex []condFact
+			for si, sc := range p.Succs {
+				if sc == x.Block() {
+					if c, t, ok := edgeCond(p, si); ok {
+						ex = append(ex, condFact{c, t})
+					}
+				}
+			}
+			s := a.sign(e, p, ex, depth+1)
+			all.nonNeg, all.nonPos = all.nonNeg && s.nonNeg, all.nonPos && s.nonPos
+		}
+		if len(x.Edges) > 0 {
+			join(all)
+		}
+	}
+	return out
+}
+
+// calleeSign: the sign of result k of a helper of the repository, on all of its returns.
+func (a *signAn) calleeSign(c *ssa.Call, k int, depth int) sgn {
+	callee := calleeOf(&c.Call)
+	if callee == nil || len(callee.Blocks) == 0 || callee.Pkg == nil || !strings.HasPrefix(callee.Pkg.Pkg.Path(), modPath) || depth > 4 {
+		return sgn{}
+	}
+	all := sgn{true, true}
+	rets := returnsOf(callee)
+	for _, ret := range rets {
+		if k >= len(ret.Results) {
+			return sgn{}
+		}
+		s := a.sign(ret.Results[k], ret.Block(), nil, depth+2)
+		all.nonNeg, all.nonPos = all.nonNeg && s.nonNeg, all.nonPos && s.nonPos
+	}
+	if len(rets) == 0 {
+		return sgn{}
+	}
+	return all
 }
 
 func nonNegative(v ssa.Value) bool {
@@ -576,6 +715,9 @@ func fromStepParam(p *Program, fn *ssa.Function, v ssa.Value, depth int) (bool, 
 				return false, ""
 			}
 			arg := e.Site.Common().Args[idx]
+			if c, ok := arg.(*ssa.Const); ok && c.Value != nil && c.Value.Kind() == constant.Int && constant.Sign(c.Value) != 0 {
+				continue // the unit step of a slice written without one
+			}
 			if ld, ok := arg.(*ssa.UnOp); ok {
 				if fa, ok := ld.X.(*ssa.FieldAddr); ok && fieldName(fa) == "Step" {
 					continue
@@ -603,6 +745,17 @@ func fromStepParam(p *Program, fn *ssa.Function, v ssa.Value, depth int) (bool, 
 		if x.Op == token.SUB {
 			return fromStepParam(p, fn, x.X, depth+1)
 		}
+	case *ssa.Phi:
+		// the step or its negation, whichever branch was taken
+		why := ""
+		for _, e := range x.Edges {
+			ok, w := fromStepParam(p, fn, e, depth+1)
+			if !ok {
+				return false, ""
+			}
+			why = w
+		}
+		return len(x.Edges) > 0, why
 	}
 	return false, ""
 }
